@@ -31,6 +31,16 @@ def run(tier, repo=None, procs=16):
             tot["attention"] += r["attention"]
         tot.update(config=c, tlc=stats)
         outcomes.append(tot)
+        sub = [j for j in jobs][core.seed() % 4::4]
+        with core.pool(render_replay.worker_init, (repo, True), procs) as p:
+            parts = p.map(render_replay.replay_chunk, sub)
+        tot2 = {"n": 0, "vectors": 0, "attention": [], "dropped": 0, "reprs": 0}
+        for r in parts:
+            for k in ("n", "vectors", "dropped", "reprs"):
+                tot2[k] += r[k]
+            tot2["attention"] += r["attention"]
+        tot2.update(config=dict(c, assertions=True), tlc=stats)
+        outcomes.append(tot2)
     # judge
     events, index = [], {}
     for oi, out in enumerate(outcomes):
@@ -51,8 +61,11 @@ def run(tier, repo=None, procs=16):
 
 
 def classify(outcomes, res):
+    seen = set()
     for out in outcomes:
-        res.add_tlc(out["tlc"])
+        if out["tlc"]["key"] not in seen:
+            seen.add(out["tlc"]["key"])
+            res.add_tlc(out["tlc"])
         res.replayed += out["n"] + out["reprs"]
         res.extra["render_vectors"] = res.extra.get("render_vectors", 0) + out["vectors"]
         res.extra["repr_checks"] = res.extra.get("repr_checks", 0) + out["reprs"]
